@@ -301,3 +301,24 @@ Theorem c13_dead_acceptors_swept_by_next_syn : forall s addr m s' e,
 Proof. exact dead_acceptors_swept_by_next_syn. Qed.
 
 Print Assumptions c13_dead_acceptors_swept_by_next_syn.
+
+(* ================================================================== every pending connect is accounted for *)
+From Utp Require Import Sock.DispC13_Pred Sock.DispC13_Proofs.
+
+(* pobs_of s o e s' = what the step shows: which run_once arm fired (kind_of o), the (address, sequence number) of
+   every SYN sent (psyns e), the per-address connecting slots before and after.  c13_pending_ok (Sock/DispC13_Pred.v):
+   for every address of either table - four slots, at most four pending; if a SYN went to the address, either one EMPTY
+   slot was filled with a connect carrying that sequence number and no other slot moved (no pending connect is
+   overwritten or lost), or nothing moved and four connects were pending (refusal); if no SYN went to it, nothing
+   moved or exactly one pending connect left, in a run_once step (control / recv arm) that sent no SYN; at most one
+   SYN per step and only from the control arm; the slots of at most one address change per step *)
+Theorem c13_pending_ok_every_step : forall s o s' e,
+  d_inv s -> dstep s o = (s', e) -> c13_pending_ok (pobs_of s o e s') = true.
+Proof. exact c13_pending_ok_model. Qed.
+
+Theorem c13_pending_ok_every_op_list : forall max_streams random ops,
+  forallb c13_pending_ok (pobs_trace (dstate_new max_streams random) ops) = true.
+Proof. exact c13_pending_trace_ok. Qed.
+
+Print Assumptions c13_pending_ok_every_step.
+Print Assumptions c13_pending_ok_every_op_list.
